@@ -29,10 +29,13 @@ RULES = [
     (r"^(skinny(128|64)|mantis)_ctr_(init|cleanup|def_init|def_cleanup|vec(128|256)_init|vec(128|256)_cleanup)$", ["C13", "C14", "C15", "C16", "C17"]),
     (r"^(skinny(128|64)|mantis)_ctr_vec(128|256)_\w+$", ["C08", "C09"]),
     (r"^(_?skinny(128|64)|_?mantis)_parallel_\w+$", ["C03", "C07", "C14"]),
-    (r"^(skinny(128|64)|mantis)_parallel_ecb_(init|cleanup)$", ["C13", "C15", "C16", "C17"]),
+    (r"^(skinny(128|64)_parallel_ecb_(encrypt|decrypt)|mantis_parallel_ecb_crypt)$", ["C18"]),
+    (r"^(skinny(128|64)_ecb_(encrypt|decrypt)|mantis_ecb_crypt|mantis_ecb_crypt_tweaked)$", ["C18"]),
+    (r"^(skinny(128|64)|mantis)_parallel_ecb_(init|cleanup)$", ["C11", "C13", "C15", "C16", "C17"]),
+    (r"^(skinny(128|64)|mantis)_ctr_(init|def_init|vec(128|256)_init)$", ["C11"]),
     (r"^_?(skinny(128|64)|mantis)_parallel_(encrypt|decrypt|crypt)_vec(128|256)$", ["C08", "C09"]),
-    (r"^.*@.*-ctr-vec(128|256)\.c$", ["C05", "C06", "C08", "C09"]),
-    (r"^.*@.*-parallel-vec(128|256)\.c$", ["C03", "C07", "C08", "C09"]),
+    (r"^.*@.*-ctr-vec(128|256)\.c$", ["C05", "C06", "C08", "C09", "C12"]),
+    (r"^.*@.*-parallel-vec(128|256)\.c$", ["C03", "C07", "C08", "C09", "C12", "C18"]),
     (r"^(skinny_to_vec\w+)$", ["C06", "C07"]),
     (r"^skinny_calloc$", ["C15", "C16"]),
     (r"^skinny_cleanse$", ["C17"]),
@@ -41,6 +44,7 @@ RULES = [
 TEXT_RULES = [(r"^arduino/", ["C19"]), (r"^examples/", ["C20"])]
 
 def props_for(name):
+    name = name.split("#")[0]          # the same function under another preprocessor configuration
     out = []
     for pat, ps in RULES:
         if re.match(pat, name): out += ps
@@ -53,7 +57,7 @@ def compare(facts, pid):
     out = []
     cur = facts.get("shapes", {})
     for name in sorted(set(gold["shapes"]) | set(cur)):
-        if WHOLE.match(name): continue
+        if WHOLE.match(name.split("#")[0]): continue
         if pid not in props_for(name): continue
         g, c = gold["shapes"].get(name), cur.get(name)
         if g != c:
@@ -73,7 +77,7 @@ def main():
         f = F.collect(repo)
         json.dump({"shapes": f["shapes"], "text_shapes": f["text_shapes"]}, open(GOLD, "w"), indent=0, sort_keys=True)
         print("recorded", len(f["shapes"]), "functions,", len(f["text_shapes"]), "files")
-        un = [n for n in f["shapes"] if not WHOLE.match(n) and not props_for(n)]
+        un = [n for n in f["shapes"] if not WHOLE.match(n.split("#")[0]) and not props_for(n)]
         print("functions without a property rule:", un)
         return 0
     f = F.collect(repo)
